@@ -347,6 +347,13 @@ def _uniform_detection(ctx):
     ctx.ob("R37.5", f"{G}.__post_init__[non-increasing]", rej, "edge arrays that are not strictly increasing are rejected", rej, True)
 
 
+def _allclose(it_, a, k):
+    """numpy semantics: |x - y| <= atol + rtol |y|, defaults rtol = 1e-5, atol = 1e-8 (absolute: metres here)"""
+    rtol = Fr(str(k.get("rtol", a[2] if len(a) > 2 else "1e-5"))) if not isinstance(k.get("rtol", None), Fr) else k["rtol"]
+    atol = Fr(str(k.get("atol", a[3] if len(a) > 3 else "1e-8"))) if not isinstance(k.get("atol", None), Fr) else k["atol"]
+    return all(abs(x - y) <= atol + rtol * abs(y) for x, y in zip(_vals(a[0]), _vals(a[1])))
+
+
 def _reduce_symmetric(ctx):
     ix = ctx.index
     ci = ix.cls(G)
@@ -355,7 +362,7 @@ def _reduce_symmetric(ctx):
     for symmetry in ((1, 0, 0), (0, -1, 0), (-1, 1, -1)):
         it = ctx.fresh_interp()
         _np_model(it)
-        it.ext_overrides["np.allclose"] = lambda it_, a, k: all(abs(x - y) <= Fr(1, 10**4) * abs(y) for x, y in zip(_vals(a[0]), _vals(a[1])))
+        it.ext_overrides["np.allclose"] = _allclose
         made = []
 
         def custom(it_, a, k, _m=made):
@@ -373,7 +380,7 @@ def _reduce_symmetric(ctx):
         ctx.ob("R37.5", f"{G}.reduce_symmetric[{symmetry}]", ok, "symmetric axes keep edges[n//2:] (the upper half), other axes are unchanged", [None if not made else [str(x) for x in _vals(made[0][a])] for a in range(3)], "upper half")
     it = ctx.fresh_interp()
     _np_model(it)
-    it.ext_overrides["np.allclose"] = lambda it_, a, k: all(abs(x - y) <= Fr(1, 10**4) * abs(y) for x, y in zip(_vals(a[0]), _vals(a[1])))
+    it.ext_overrides["np.allclose"] = _allclose
     asym = [Fr(0), Fr(1), Fr(3), Fr(4), Fr(6)]
     g = _grid(ctx, it, asym, asym, asym)
     w = NdArr((4,), [b - a for a, b in zip(asym, asym[1:])])
@@ -384,6 +391,27 @@ def _reduce_symmetric(ctx):
     except Raised:
         rej = True
     ctx.ob("R37.5", f"{G}.reduce_symmetric[asymmetric-widths]", rej, "an axis whose widths are not mirror-symmetric is rejected", rej, True)
+    # the same at the scale grids are actually given in (metres): 10 nm cells, mismatches of a few nm
+    nm = Fr(1, 10**9)
+    for tag, widths, want_rej in (("nanometre-scale asymmetric", (10, 15, 12, 10), True), ("nanometre-scale symmetric", (10, 15, 15, 10), False), ("nanometre-scale 10 % ramp", (10, 11, 12, 13), True)):
+        it = ctx.fresh_interp()
+        _np_model(it)
+        it.ext_overrides["np.allclose"] = _allclose
+        e = [Fr(0)]
+        for w_ in widths:
+            e.append(e[-1] + w_ * nm)
+        g = _grid(ctx, it, e, e, e)
+        w = NdArr((4,), [b - a for a, b in zip(e, e[1:])])
+        g.attrs["_cell_widths"] = (w, w, w)
+        from ..harness import stub_repo_calls
+
+        stub_repo_calls(it, {f"{G}.custom": lambda it_, a, k: "reduced"})
+        try:
+            it.call_method(g, "reduce_symmetric", (0, 1, 0))
+            rej = False
+        except Raised:
+            rej = True
+        ctx.ob("R37.5", f"{G}.reduce_symmetric[{tag}]", rej is want_rej, "the mirror-symmetry test of the widths is relative: it gives the same verdict at nanometre scale as at unit scale (no absolute tolerance that swallows nanometre differences)", rej, want_rej)
 
 
 def run(ctx):
